@@ -190,6 +190,18 @@ func c01Run(r *fw.R, d c01Desc) {
 		}()
 		go func() { // reader
 			defer wg.Done()
+			// what Read returned stays the caller's: it is compared once more after all later messages
+			// (of both directions) have been received
+			var kept [][]byte
+			defer func() {
+				for i, got := range kept {
+					if !bytes.Equal(got, payloads[i]) {
+						r.Violate("C01/received-message-changed-later", fmt.Sprintf("%s message %d: the slice returned by Read was correct when it was returned and differs now, after later reads (first difference at %d)", dir, i, firstDiff(got, payloads[i])), "")
+						return
+					}
+				}
+				r.Count("read_results_compared_again_at_the_end", int64(len(kept)))
+			}()
 			for i, m := range prog {
 				var typ websocket.MessageType
 				var got []byte
@@ -228,6 +240,9 @@ func c01Run(r *fw.R, d c01Desc) {
 					return
 				}
 				r.Count("messages_compared", 1)
+				if mode.Kind == "Read" && len(kept) == i {
+					kept = append(kept, got)
+				}
 				if m.Size >= 65536 {
 					r.Count("messages_over_64k", 1)
 				}
